@@ -12,7 +12,6 @@ Definition dec3_fits (w : nat) (v : dec3) : Prop :=
   let '(x, y, z) := v in fits w x /\ fits w y /\ fits w z.
 Definition rec_fits (w : nat) (r : grec) : Prop :=
   dec3_fits w (g_pos r) /\ match g_vel r with Some v => dec3_fits w v | None => True end.
-Definition has_vel (r : grec) : bool := match g_vel r with Some _ => true | None => false end.
 Definition rec_ok (w : nat) (vel : bool) (r : grec) : Prop :=
   name_ok (g_resname r) /\ name_ok (g_aname r) /\ rec_fits w r /\ has_vel r = vel.
 
@@ -58,14 +57,14 @@ Definition line_of (w d : nat) (r : grec) : bytes :=
 
 Lemma parse_atomlist_line w d fv r : has_vel r = fv -> parse_atomlist w d fv r = Ok (line_of w d r).
 Proof.
-  intros H. unfold parse_atomlist, has_vel in *. rewrite H. rewrite eqb_reflx. simpl.
+  intros H. unfold parse_atomlist. rewrite H. rewrite eqb_reflx. simpl.
   unfold line_of, header_of. rewrite <- !app_assoc. reflexivity.
 Qed.
 Lemma parse_atomlist_ok w d fv r line : parse_atomlist w d fv r = Ok line ->
   has_vel r = fv /\ line = line_of w d r.
 Proof.
   intros H. unfold parse_atomlist in H.
-  fold (has_vel r) in H. destruct (Bool.eqb (has_vel r) fv) eqn:E; simpl in H; [|discriminate].
+  destruct (Bool.eqb (has_vel r) fv) eqn:E; simpl in H; [|discriminate].
   apply eqb_prop in E. split; [assumption|]. inversion H. unfold line_of, header_of.
   rewrite <- !app_assoc. reflexivity.
 Qed.
@@ -111,20 +110,25 @@ Proof.
   apply strip_with_mid; auto. apply forallb_repeat. reflexivity.
 Qed.
 
+Lemma chop_nil_r (c : bytes) n : n = length c -> chop n c = (c, []).
+Proof. intros H. rewrite <- (app_nil_r c) at 1. apply chop_app. assumption. Qed.
+
 Lemma chop_fields3 w a b c : length a = w -> length b = w -> length c = w ->
   chop_fields 3 w (a ++ b ++ c) = [a; b; c].
 Proof.
-  intros Ha Hb Hc. simpl. rewrite (chop_app a) by auto. rewrite (chop_app b) by auto.
-  rewrite <- (app_nil_r c) at 1. rewrite (chop_app c) by auto. reflexivity.
+  intros Ha Hb Hc. cbn [chop_fields].
+  rewrite (chop_app a) by auto. cbv beta iota. rewrite (chop_app b) by auto. cbv beta iota.
+  rewrite (chop_nil_r c) by auto. reflexivity.
 Qed.
 Lemma chop_fields6 w a b c a' b' c' :
   length a = w -> length b = w -> length c = w -> length a' = w -> length b' = w -> length c' = w ->
   chop_fields 6 w ((a ++ b ++ c) ++ a' ++ b' ++ c') = [a; b; c; a'; b'; c'].
 Proof.
-  intros. simpl. rewrite <- !app_assoc.
-  rewrite (chop_app a) by auto. rewrite (chop_app b) by auto. rewrite (chop_app c) by auto.
-  rewrite (chop_app a') by auto. rewrite (chop_app b') by auto.
-  rewrite <- (app_nil_r c') at 1. rewrite (chop_app c') by auto. reflexivity.
+  intros. cbn [chop_fields]. rewrite <- !app_assoc.
+  rewrite (chop_app a) by auto. cbv beta iota. rewrite (chop_app b) by auto. cbv beta iota.
+  rewrite (chop_app c) by auto. cbv beta iota.
+  rewrite (chop_app a') by auto. cbv beta iota. rewrite (chop_app b') by auto. cbv beta iota.
+  rewrite (chop_nil_r c') by auto. reflexivity.
 Qed.
 
 Lemma parse_fields w d r : 1 <= d -> d + 4 <= w -> rec_fits w r ->
@@ -202,18 +206,30 @@ Proof.
   unfold determine_format. destruct (line_of w d r ++ [NL]) eqn:E.
   { exfalso. destruct (line_of w d r); discriminate. }
   rewrite <- E. clear E. unfold determine_format_body. rewrite drop_final_nl_snoc.
-  rewrite (no_nl_count _ (no_nl_line w d r Hn1 Hn2)). simpl negb. cbv iota.
+  cbv zeta.
+  rewrite (no_nl_count _ (no_nl_line w d r Hn1 Hn2)).
+  change (negb (0 =? 0)) with false. cbn [negb].
   rewrite line_length by assumption.
   assert (Hdots : count_char "."%char (skipn COORD_START (line_of w d r)) = if has_vel r then 6 else 3).
   { unfold line_of. rewrite skipn_app_exact by (rewrite header_length; reflexivity).
     rewrite count_char_app, fmt3_dots by assumption. unfold has_vel.
     destruct (g_vel r); [rewrite fmt3_dots by lia|]; reflexivity. }
-  rewrite Hdots. unfold line_len, COORD_START.
-  destruct (has_vel r); simpl Nat.eqb; cbn [bind].
-  - replace (20 + w * 3 * (1 + 1) - 20) with (w * 6) by lia. rewrite Nat.div_mul by discriminate.
-    replace (20 + 6 * w) with (20 + w * 3 * (1 + 1)) by lia. rewrite Nat.eqb_refl. reflexivity.
-  - replace (20 + w * 3 * (1 + 0) - 20) with (w * 3) by lia. rewrite Nat.div_mul by discriminate.
-    replace (20 + 3 * w) with (20 + w * 3 * (1 + 0)) by lia. rewrite Nat.eqb_refl. reflexivity.
+  rewrite Hdots. change COORD_START with 20.
+  destruct (has_vel r).
+  - change (6 =? 3) with false. change (6 =? 6) with true. cbn [bind].
+    assert (E : (line_len w true - 20) / 6 = w).
+    { unfold line_len. replace (20 + w * 3 * (1 + 1) - 20) with (w * 6) by lia. apply Nat.div_mul. discriminate. }
+    rewrite E.
+    match goal with |- context [negb (?a =? ?b)] =>
+      assert (X : (a =? b) = true) by (apply Nat.eqb_eq; unfold line_len; lia) end.
+    rewrite X. reflexivity.
+  - change (3 =? 3) with true. cbn [bind].
+    assert (E : (line_len w false - 20) / 3 = w).
+    { unfold line_len. replace (20 + w * 3 * (1 + 0) - 20) with (w * 3) by lia. apply Nat.div_mul. discriminate. }
+    rewrite E.
+    match goal with |- context [negb (?a =? ?b)] =>
+      assert (X : (a =? b) = true) by (apply Nat.eqb_eq; unfold line_len; lia) end.
+    rewrite X. reflexivity.
 Qed.
 
 (* ------------------------------------------------------------------ box line *)
@@ -273,27 +289,38 @@ Definition expected_box (box : list bentry) : list pdec :=
   | _ => []
   end.
 
+Lemma fmt_f_nonempty w d v : fmt_f w d v <> [].
+Proof.
+  unfold fmt_f, lpad, fmt_f_body. intros E. apply (f_equal (@length _)) in E.
+  rewrite !app_length in E. pose proof (to_digits_nonempty (dmant v / pow10 d)) as Hne.
+  destruct (to_digits (dmant v / pow10 d)); [contradiction|]. simpl in E. lia.
+Qed.
+Lemma join_sp_nonempty x r : x <> [] -> join_sp (x :: r) <> [].
+Proof. intros H. destruct r; simpl; [assumption|]. destruct x; [contradiction|discriminate]. Qed.
+
 Lemma box_roundtrip box line : length box = 9 -> dump_lattice_gro box = Ok line ->
   extract_lattice_gro (line ++ [NL]) = Ok (expected_box box) /\ line <> [].
 Proof.
   intros Hlen H.
   destruct box as [|a0 [|a1 [|a2 [|a3 [|a4 [|a5 [|a6 [|a7 [|a8 [|]]]]]]]]]]; try discriminate.
   unfold dump_lattice_gro in H. unfold expected_box.
-  destruct (existsb b_nz [a1; a2; a3; a5; a6; a7]); inversion H; subst line; clear H.
+  destruct (existsb b_nz [a1; a2; a3; a5; a6; a7]); injection H as <-.
   - split.
-    + unfold extract_lattice_gro. rewrite split_ws_box by discriminate.
-      cbn [map app firstn]. rewrite mapM_parse_box. reflexivity.
-    + intros E. apply (f_equal (@length _)) in E. simpl in E. rewrite app_length in E.
-      unfold fmt_f, lpad in E. rewrite app_length in E.
-      pose proof (box_body_nonempty a0) as Hne. unfold box_body in Hne.
-      destruct (fmt_f_body BOX_D (b_dec a0)); [contradiction|]. simpl in E. lia.
+    + unfold extract_lattice_gro.
+      assert (Hs := split_ws_box [a0; a4; a8; a1; a2; a3; a5; a6; a7] ltac:(discriminate)).
+      cbn [map join_sp] in Hs. rewrite Hs.
+      cbn [firstn]. assert (Hm := mapM_parse_box [a0; a4; a8; a1; a2; a3; a5; a6; a7]).
+      cbn [map] in Hm. rewrite Hm. reflexivity.
+    + intros E. destruct (fmt_f BOX_W BOX_D (b_dec a0)) eqn:E0; [|discriminate].
+      exact (fmt_f_nonempty _ _ _ E0).
   - split.
-    + unfold extract_lattice_gro. rewrite split_ws_box by discriminate.
-      cbn [map app firstn]. rewrite mapM_parse_box. reflexivity.
-    + intros E. apply (f_equal (@length _)) in E. simpl in E. rewrite app_length in E.
-      unfold fmt_f, lpad in E. rewrite app_length in E.
-      pose proof (box_body_nonempty a0) as Hne. unfold box_body in Hne.
-      destruct (fmt_f_body BOX_D (b_dec a0)); [contradiction|]. simpl in E. lia.
+    + unfold extract_lattice_gro.
+      assert (Hs := split_ws_box [a0; a4; a8] ltac:(discriminate)).
+      cbn [map join_sp] in Hs. rewrite Hs.
+      cbn [firstn]. assert (Hm := mapM_parse_box [a0; a4; a8]).
+      cbn [map] in Hm. rewrite Hm. reflexivity.
+    + intros E. destruct (fmt_f BOX_W BOX_D (b_dec a0)) eqn:E0; [|discriminate].
+      exact (fmt_f_nonempty _ _ _ E0).
 Qed.
 
 Lemma no_nl_join_sp l : Forall no_nl l -> no_nl (join_sp l).
@@ -310,4 +337,54 @@ Proof.
   destruct box as [|a0 [|a1 [|a2 [|a3 [|a4 [|a5 [|a6 [|a7 [|a8 [|]]]]]]]]]]; try discriminate.
   inversion H. apply no_nl_join_sp. apply Forall_forall. intros x Hx.
   apply in_map_iff in Hx as (e & <- & _). apply no_nl_fmt_f.
+Qed.
+
+(* ------------------------------------------------------------------ statements used by Props/C13.v *)
+Lemma fixed_roundtrip w d v : 1 <= d -> d + 3 <= w -> fits w v ->
+  parse_float (fmt_f w d v) = Ok (mkpdec (dneg v) (dmant v) d) /\ length (fmt_f w d v) = w.
+Proof. intros. split; [apply parse_float_fmt_f; assumption|apply fmt_f_length; assumption]. Qed.
+
+Lemma atomline_length w d fv r line : parse_atomlist w d fv r = Ok line ->
+  1 <= d -> d + 4 <= w -> rec_fits w r ->
+  length line = 20 + w * 3 * (1 + (if fv then 1 else 0)).
+Proof.
+  intros H Hd Hw Hf. apply parse_atomlist_ok in H as [Hv ->]. rewrite line_length by assumption.
+  unfold line_len. rewrite Hv. reflexivity.
+Qed.
+
+(* the two number fields of any written line: five columns holding n mod 10^5 *)
+Lemma wrap_fields w d fv r line : parse_atomlist w d fv r = Ok line ->
+  let f_res := firstn 5 line in
+  let f_num := firstn 5 (skipn 15 line) in
+  length f_res = 5 /\ length f_num = 5 /\
+  py_int f_res = Ok (g_resnum r mod 100000)%Z /\ py_int f_num = Ok (g_anum r mod 100000)%Z /\
+  ((0 <= g_resnum r < 100000)%Z -> py_int f_res = Ok (g_resnum r)) /\
+  ((0 <= g_anum r < 100000)%Z -> py_int f_num = Ok (g_anum r)).
+Proof.
+  intros H. apply parse_atomlist_ok in H as [Hv ->]. cbv zeta.
+  set (f1 := lpad 5 (fmt_Z (g_resnum r mod WRAP))).
+  set (f2 := rpad 5 (validate_string (g_resname r))).
+  set (f3 := lpad 5 (validate_string (g_aname r))).
+  set (f4 := lpad 5 (fmt_Z (g_anum r mod WRAP))).
+  assert (L1 : length f1 = 5) by (apply int5_length, wrap_range).
+  assert (L2 : length f2 = 5) by (apply rpad_length, validate_length).
+  assert (L3 : length f3 = 5) by (apply lpad_length, validate_length).
+  assert (L4 : length f4 = 5) by (apply int5_length, wrap_range).
+  assert (E1 : firstn 5 (line_of w d r) = f1).
+  { unfold line_of, header_of. fold f1 f2 f3 f4. rewrite <- !app_assoc.
+    apply firstn_app_exact. symmetry. exact L1. }
+  assert (E4 : firstn 5 (skipn 15 (line_of w d r)) = f4).
+  { unfold line_of, header_of. fold f1 f2 f3 f4.
+    replace ((f1 ++ f2 ++ f3 ++ f4) ++ fmt3 w d (g_pos r) ++ match g_vel r with Some v => fmt3 w (d + 1) v | None => [] end)
+      with ((f1 ++ f2 ++ f3) ++ f4 ++ fmt3 w d (g_pos r) ++ match g_vel r with Some v => fmt3 w (d + 1) v | None => [] end)
+      by (rewrite <- !app_assoc; reflexivity).
+    rewrite skipn_app_exact by (rewrite !app_length; lia).
+    apply firstn_app_exact. symmetry. exact L4. }
+  rewrite E1, E4.
+  pose proof (proj1 (int5_roundtrip _ (wrap_range (g_resnum r)))) as P1.
+  pose proof (proj1 (int5_roundtrip _ (wrap_range (g_anum r)))) as P4.
+  change WRAP with 100000%Z in *. fold f1 in P1. fold f4 in P4.
+  repeat split; try assumption.
+  - intros Hr. rewrite P1. rewrite Z.mod_small by assumption. reflexivity.
+  - intros Hr. rewrite P4. rewrite Z.mod_small by assumption. reflexivity.
 Qed.
